@@ -18,7 +18,7 @@ func init() {
 		Assumptions: []string{"floating-point rounding of u and behaviour exactly at a threshold are not decided (the statement leaves the edges open)"}})
 	register(&propSpec{ID: "C07", Run: checkC07,
 		Explanation: "In ScaleUp the untaint step dominates the cloud step, which runs only when the untaint step returned no error; the cloud step is asked for exactly N − (#untainted) and only if that is ≥ 1; the untaint loop is a bounded accumulator over every tainted node in newest-first order (comparator cross-checked against the oldest-first one); and no function reachable from the scan body reads the cached ASG desired capacity for a decision after an AWS mutation that was not mirrored into the cache (typestate over MUT / SYNC / READ with per-function summaries).",
-		RuleText:    "R1 order, R2 remainder, R3 loop, R4 comparator, R5 typestate on the provider cache, R6 absolute set (shared with C17.R2), R7 write confirmed, R8 every tainted node the loop reaches is attempted",
+		RuleText:    "R1 order, R2 remainder, R3 loop, R4 comparator, R5 typestate on the provider cache, R6 absolute set (shared with C17.R2), R7 write confirmed, R8 every tainted node the loop reaches is attempted, R9 the untaint candidates are uncordoned tainted nodes (classifier guard, C01.R5)",
 		Assumptions: []string{"failed-but-applied writes and AWS eventual consistency are not decided"}})
 	register(&propSpec{ID: "C08", Run: checkC08,
 		Explanation: "The taint loop walks a complete copy of the untainted list (one bundle per element, unconditional), sorted by a Less that reduces to CreationTimestamp(i).Before(CreationTimestamp(j)) before the loop starts, in index order, tainting the current element's node, leaving only by exhaustion or when n writes succeeded, and continuing after a failed write.",
